@@ -129,7 +129,7 @@ class Net:
             return [p for p in sock.in_pipes if p.attached or p.flight]
 
         if sock.type == PULL:
-            return [p for addr in sock.bound_at if self.bound.get(addr) is sock for p in self.pp.get(addr, ()) if not p.closed]
+            return [p for addr in sock.bound_at if self.bound.get(addr) is sock for p in self.pp.get(addr, ()) if not p.closed or p.flight]
 
         return []
 
@@ -359,10 +359,12 @@ class Socket:
         elif self.type == PUSH:
             for p in self.out_pipes:
                 p.closed = True
+                peer = net.bound.get(p.addr)
 
-                if hard or not self.opts.get(LINGER):     # LINGER=0 (the only setting the code uses): discard
-                    if drop_inflight or not hard:
-                        p.flight.clear()
+                # LINGER=0 discards what has not left the process: with a connected peer libzmq hands messages to the
+                # transport at once, so only a queue towards an absent peer is lost on a clean close; a hard kill loses all
+                if (hard and drop_inflight) or peer is None or peer.closed:
+                    p.flight.clear()
 
         self.inbox.clear()
 
